@@ -2353,13 +2353,14 @@ macro_rules! value_dy_math_impl {
                     if a.rank() > 1 || !matches!(a, Value::Num(_) | Value::Byte(_)) {
                         return None;
                     }
+                    // A scalar divided by the array is not monotone where the array changes sign
+                    $(if _left != $left {
+                        return None;
+                    })?
                     let mut flags = a.meta.take_sorted_flags();
                     if negative {
                         flags.reverse_sorted();
                     }
-                    $(if _left != $left {
-                        flags.reverse_sorted();
-                    })?
                     Some(flags)
                 },
                 handle_pre: |a: Option<ArrayFlags>, b, val| {
